@@ -8,3 +8,4 @@ import OvniModel.Generated.Tampi
 import OvniModel.Generated.Mpi
 import OvniModel.Generated.Kernel
 import OvniModel.Generated.Openmp
+import OvniModel.Generated.Handlers
